@@ -24,6 +24,9 @@ type scheduler struct {
 func newScheduler(i *interpreter) *scheduler { return &scheduler{i: i} }
 
 func (i *interpreter) spawn(fr *frame, instr *ssa.Go, fn value, args []value) {
+	if i.initDepth > 0 {
+		return // goroutines started by package initialisers (runtime helpers) are not part of any harness
+	}
 	i.sched.pending = append(i.sched.pending, pendingGo{fn, args})
 }
 
